@@ -131,6 +131,15 @@ class ConstRuleArgs(ConstRule):
         return self.answer
 
 
+class DuckRule:
+    """a user-defined restriction that does not derive from vakt's Rule: only `satisfied` is ever asked of a rule"""
+    def __init__(self, val):
+        self.val = val
+
+    def satisfied(self, what, inquiry=None):
+        return what == self.val
+
+
 CONST_CLASSES = [ConstRule, ConstRule, ConstRuleValue, ConstRulePosOnly, ConstRuleArgs]
 _const_n = [0]
 
